@@ -21,7 +21,9 @@ type Clause struct {
 	HasEcho bool
 }
 
-const Sep = "; "
+// Sep is the clause separator (valid.ErrEndFlag, an exported variable of the library: one
+// process of C02 / C15 / C17 runs with a different value).
+var Sep = "; "
 
 var (
 	groupRe = regexp.MustCompile(`^("[^"]*"(?:, "[^"]*")+) (explain:|说明:) (.*)$`)
@@ -36,7 +38,7 @@ func SplitErr(s string) (raw []string, framing string) {
 	if s == "" {
 		return nil, "empty error text"
 	}
-	if strings.HasSuffix(s, Sep) || strings.HasSuffix(s, ";") {
+	if strings.HasSuffix(s, Sep) || (Sep == "; " && strings.HasSuffix(s, ";")) || strings.HasSuffix(s, "; ") {
 		framing = "trailing clause separator"
 	}
 	raw = strings.Split(s, Sep)
@@ -101,5 +103,7 @@ func ParseErr(s string) (cl []Clause, framing string) {
 // AmbiguousText reports whether a value or message would make the error text
 // format itself ambiguous for any parser (excluded by construction, counted).
 func AmbiguousText(s string) bool {
-	return strings.Contains(s, Sep) || strings.Contains(s, `"`) || strings.Contains(s, "explain:") || strings.Contains(s, "说明:") || strings.HasSuffix(s, ";")
+	// (the text sits between blanks in a clause: " "+s+" " covers a separator formed with the context,
+	// e.g. a message ending in ";" under the default separator)
+	return strings.Contains(" "+s+" ", Sep) || strings.Contains(s, `"`) || strings.Contains(s, "explain:") || strings.Contains(s, "说明:") || strings.HasSuffix(s, ";")
 }
